@@ -102,6 +102,13 @@ class Emitter:
                     return self._addq(m, quals)
                 return ('c', m, quals)
             rec = self.tu.find_record(name)
+            if rec is None and '<' in name:
+                # sugared template arguments (e.g. app_pointer_map<vsbx::T_PointerType>): canonicalise them via the alias table
+                cn2 = self.canon_template_name(name)
+                if cn2 != name:
+                    rec = self.tu.find_record(cn2)
+                    if rec is not None:
+                        name = cn2
             if rec is not None:
                 return ('c', 'struct ' + self.use_record(rec, name), quals)
             if name.startswith('(lambda'):
@@ -126,6 +133,45 @@ class Emitter:
         if k == 'a':
             return ('a', self.resolve(t[1]), t[2])
         raise ExtractError('bad type term')
+
+    def canon_template_name(self, name):
+        try:
+            i = name.index('<')
+            args = self._split_targs(name)
+        except ValueError:
+            return name
+        out = []
+        for a in args:
+            try:
+                t = T.parse(a)
+            except T.TypeParseError:
+                out.append(a)
+                continue
+            out.append(T.type_str(self.canon_cxx(t)))
+        j = name.rindex('>')
+        return name[:i] + '<' + ', '.join(out) + '>' + name[j + 1:]
+
+    def canon_cxx(self, t):
+        """C++-level canonicalisation of a type term through the alias tables (no C mapping)"""
+        k = t[0]
+        if k == 'n':
+            nn = norm_name(t[1])
+            if nn in STD_TYPEDEFS and STD_TYPEDEFS[nn] != 'void *':
+                return T.addq(T.parse(STD_TYPEDEFS[nn]), t[2])
+            if nn in self.tu.aliases:
+                return T.addq(self.canon_cxx(T.parse(self.tu.aliases[nn])), t[2])
+            if '<' in t[1]:
+                return ('n', self.canon_template_name(t[1]), t[2])
+            return t
+        if k == 'p':
+            return ('p', self.canon_cxx(t[1]), t[2])
+        if k == 'ref':
+            return ('ref', self.canon_cxx(t[1]))
+        if k == 'a':
+            return ('a', self.canon_cxx(t[1]), t[2])
+        if k == 'f':
+            return ('f', self.canon_cxx(t[1]), [self.canon_cxx(p) for p in t[2]], t[3], t[4])
+        return t
 
     def _addq(self, t, quals):
         if not quals:
@@ -498,7 +544,19 @@ class Emitter:
                         nm = ci['anyInit']['name']
                         inited.add(nm)
                         ii = inner(ci)
-                        pre += '  ' + self.init_field(self.field_lvalue('this_', nm, qt(ci['anyInit'])), qt(ci['anyInit']), ii[0] if ii else None) + '\n'
+                        ie = ii[0] if ii else None
+                        if ie is not None and ie.get('kind') == 'CXXDefaultInitExpr' and not inner(ie):
+                            # in-class default member initialiser: the expression lives on the FieldDecl
+                            fd = fields.get(nm) or self.tu.decls.get(ci['anyInit'].get('id'), {})
+                            fi = inner(fd)
+                            ie = fi[-1] if fi else None
+                        hook = self.opts.get('field_default_init')
+                        if hook and (ie is None or (ie.get('kind') in ('CXXConstructExpr',) and not inner(ie))):
+                            r = hook(self, self.field_lvalue('this_', nm, qt(ci['anyInit'])), qt(ci['anyInit']))
+                            if r:
+                                pre += '  ' + r + '\n'
+                                continue
+                        pre += '  ' + self.init_field(self.field_lvalue('this_', nm, qt(ci['anyInit'])), qt(ci['anyInit']), ie) + '\n'
                     elif 'baseInit' in ci:
                         ii = inner(ci)
                         bt = ci['baseInit'].get('desugaredQualType') or ci['baseInit']['qualType']
@@ -511,6 +569,12 @@ class Emitter:
             for nm, f in fields.items():
                 if nm not in inited:
                     fi = [c for c in inner(f)]
+                    hook = self.opts.get('field_default_init')
+                    if hook and not (fi and f.get('hasInClassInitializer')):
+                        r = hook(self, self.field_lvalue('this_', nm, qt(f)), qt(f))
+                        if r:
+                            pre += '  ' + r + '\n'
+                            continue
                     if fi and f.get('hasInClassInitializer'):
                         pre += '  ' + self.init_field(self.field_lvalue('this_', nm, qt(f)), qt(f), fi[-1]) + '\n'
             post = '  return self_;\n'
@@ -1066,6 +1130,12 @@ class Emitter:
         if t[0] == 'c':
             return ('c', t[1], frozenset(q for q in t[2] if q == 'volatile'))
         return self._strip_top_quals(t)
+
+    def E_CXXDefaultInitExpr(self, n):
+        ii = inner(n)
+        if ii:
+            return self.E(ii[0])
+        raise ExtractError('default member initialiser without expression')
 
     def E_CXXDefaultArgExpr(self, n):
         raise ExtractError('default argument')
